@@ -107,7 +107,15 @@ def run(chk, args):
                       seed=chk.seed + 13, timeout=900)
         if not g3["ok"]:
             raise vlib.Machinery("HistoryGen (wrappers) failed: %s\n%s" % (g3["error"], g3["out"][-1500:]))
-        hs += vlib.one_per_trace(vlib.parse_printed(g3["out"], "BEHAVIOUR"), prng)[:n3]
+        hw = vlib.one_per_trace(vlib.parse_printed(g3["out"], "BEHAVIOUR"), prng)[:n3]
+        for i, h in enumerate(hw):
+            if i % 3 == 0:
+                # a definition whose visible parameters depend on an integer argument (rpa): the object used first is
+                # one of a case with few components, the other one of the case with all four
+                first = [e["w"] for e in h["steps"] if e["op"] in ("set", "eval", "clone")][:1]
+                for w in ("w1", "w2"):
+                    h["wmodel"][w] = "rpa#0" if [w] == first else "rpa#9"
+        hs += hw
         # pure-Python definitions only (few objects): kernels, DirectModel objects, reloads and releases follow each other
         n4 = 80 if thorough else 8
         g4 = vlib.tlc("HistoryGen", "HistoryGenPy.cfg", workers=1, simulate="num=%d" % n4, depth=35,
@@ -124,7 +132,7 @@ def run(chk, args):
         os.makedirs(cache)
         # warm the shared library cache once (no concurrent first builds later)
         code = ("from sasmodels import core\nimport numpy as np\n"
-                "for m in %r:\n    core.load_model(m, dtype='double', platform='dll').make_kernel([np.array([0.1])])\n" % MODELS)
+                "for m in %r:\n    core.load_model(m, dtype='double', platform='dll').make_kernel([np.array([0.1])])\n" % (MODELS + ["rpa"]))
         p = subprocess.run([vlib.VENV_PY, "-c", code], capture_output=True, text=True, env=vlib.worker_env(cache), timeout=900)
         if p.returncode != 0:
             raise vlib.Machinery("cache warm-up failed: " + p.stderr[-2000:])
